@@ -91,3 +91,40 @@ Definition c03_code (c : vcase) : N :=
   end.
 
 Definition check_c03 (c : vcase) : N := match c03_code c with 0 => corr_code c | n => n end.
+
+(* ---- C17: strict / permissive, evaluated on the implementation's output ---- *)
+From SLX Require Import AbiT.
+
+Record c17case := mk_c17case {
+  k_code : list byte; k_lim : limits;
+  k_strict : xrun; k_perm : xrun;          (* VM::execute in both modes *)
+  k_astrict : xa; k_aperm : xa }.          (* the whole analysis in both modes *)
+
+Definition jump_err_idx (k : N) : bool := (k =? 5) || (k =? 6) || (k =? 7) || (k =? 8).
+
+Definition c17_code (c : c17case) : N :=
+  match try_from (k_code c), k_strict c, k_perm c with
+  | Ok code, XRun ok1 e1 s1 jt1 r1 q1 p1, XRun ok2 e2 s2 jt2 r2 q2 p2 =>
+      let len := N.of_nat (length code) in
+      if negb (Bool.eqb ok1 (match e1 with [] => true | _ => false end)) then 30
+      else if negb (Bool.eqb ok2 (match e2 with [] => true | _ => false end)) then 30
+      else if negb (forallb (fun e => fst e <? len) (e1 ++ e2)) then 31
+      else if existsb (fun e => jump_err_idx (snd e)) e2 then 32
+      else if negb (list_eqb stored_eqb s1 s2 && assoc_eq N.eqb N.eqb jt1 jt2 && list_eqb pair_eqb r1 r2) then 33
+      else if negb (forallb (fun e => existsb (pair_eqb e) e1) e2) then 34
+      else if negb (forallb (fun e => jump_err_idx (snd e) || existsb (pair_eqb e) e2) e1) then 35
+      else if (xa_class (k_astrict c) =? 0)
+              && negb ((xa_class (k_aperm c) =? 0) && list_eqb entry_eqb (xa_layout (k_astrict c)) (xa_layout (k_aperm c))) then 36
+      else if (xa_class (k_astrict c) =? 2) || (xa_class (k_aperm c) =? 2) then 37
+      else 0
+  | Ok _, XPanic _, _ | Ok _, _, XPanic _ => 37
+  | _, _, _ => 0
+  end.
+
+Definition check_c17 (c : c17case) : N :=
+  match c17_code c with
+  | 0 => match corr_code (mk_vcase (k_code c) (mk_config' (k_lim c) false) (k_strict c)) with
+         | 0 => corr_code (mk_vcase (k_code c) (mk_config' (k_lim c) true) (k_perm c))
+         | n => n end
+  | n => n
+  end.
